@@ -474,9 +474,29 @@ func F3AfterTimeout(rng *rand.Rand) *Scn {
 	return sc
 }
 
+// QueryCaps: each colour query under every subset of the three colour-report
+// capabilities (OSC 4, 10, 11 answered or not): a query the terminal answers
+// returns the reported colour whatever the other two capabilities are.
+func QueryCaps(rng *rand.Rand) []*Scn {
+	var out []*Scn
+	for sub := 0; sub < 8; sub++ {
+		for _, order := range [][]string{{"bg", "fg", "color"}, {"color", "fg", "bg"}} {
+			sc := &Scn{Kind: "query-caps", Mask: rng.Intn(1<<10) | sub<<10 | rng.Intn(4)<<13, Alt: rng.Intn(2) == 0, Loose: true}
+			for _, w := range order {
+				sc.Steps = append(sc.Steps, Step{Op: "call", What: w, Reply: "ontime"})
+			}
+			out = append(out, sc)
+		}
+	}
+	return out
+}
+
 // Queries: the query APIs against reply timings, preceded/followed by unsolicited replies.
 func Queries(rng *rand.Rand) *Scn {
-	sc := &Scn{Kind: "query", Mask: rng.Intn(1<<15) | 1<<10 | 1<<11 | 1<<12, Alt: rng.Intn(2) == 0, Loose: true}
+	sc := &Scn{Kind: "query", Mask: rng.Intn(1 << 15), Alt: rng.Intn(2) == 0, Loose: true}
+	if rng.Intn(2) == 0 {
+		sc.Mask |= 1<<10 | 1<<11 | 1<<12 // all three colour queries answered
+	}
 	whats := []string{"bg", "fg", "color", "cpr", "clipboard"}
 	for i := 1 + rng.Intn(4); i > 0; i-- {
 		if rng.Intn(2) == 0 {
